@@ -184,7 +184,7 @@ def doc_strategy():
                                               "l": st.lists(st.one_of(st.integers(0, 3), st.sampled_from([1.0, 2.0, 0.0])), max_size=3),
                                               "m": st.fixed_dictionaries({}, optional={"k": st.integers(0, 2)})})
     good = obj.map(json.dumps)
-    nonobj = st.sampled_from(["5", "5.0", "[1, 2]", "[1, 1.0, true]", "\"str\"", "null", "true", "1.5", "-0.0", "0"])
+    nonobj = st.sampled_from(["99999999999999999999", '{"n": -9223372036854775809}', '{"name": 1e400, "n": 1}', "9223372036854775807", "5", "5.0", "[1, 2]", "[1, 1.0, true]", "\"str\"", "null", "true", "1.5", "-0.0", "0"])
     bad = st.sampled_from(["{", "{'a': 1}", "nope", "", "  ", "{\"a\": }", "[1,", "{\"name\": 1} trailing"])
     return st.one_of(good, good, good, nonobj, bad)
 
@@ -308,11 +308,11 @@ def campaign(run: common.Run) -> None:
     def body_slurp(expr, doc, b):
         check_slurp(run, expr, doc, b, run.hyp_fail)
 
-    docs = st.lists(doc_strategy(), max_size=8)
+    docs = st.lists(doc_strategy(), max_size=8 if not q else 5)
     common.drive(run, body_null, {"c": null_case()}, 500 if q else 8000, seed_salt=1)
     common.drive(run, body_stream, {"expr": st.sampled_from(STREAM_EXPRS), "docs": docs, "b": st.booleans(), "mode": st.sampled_from(["package-default", "package-default", "package:jq", "package:pk"])},
-                 350 if q else 6000, seed_salt=2)
-    common.drive(run, body_doc, {"expr": st.sampled_from(DOC_EXPRS), "docs": docs, "b": st.booleans(), "name": st.sampled_from(["doc", "jq", "r"])}, 200 if q else 4000, seed_salt=3)
+                 180 if q else 6000, seed_salt=2)
+    common.drive(run, body_doc, {"expr": st.sampled_from(DOC_EXPRS), "docs": docs, "b": st.booleans(), "name": st.sampled_from(["doc", "jq", "r"])}, 90 if q else 4000, seed_salt=3)
     objs = st.dictionaries(st.sampled_from(["name", "n", "l"]), st.one_of(st.integers(0, 3), st.lists(st.integers(0, 2), max_size=2), st.sampled_from(["a", "b"])), max_size=3)
     common.drive(run, body_slurp, {"expr": st.sampled_from(STREAM_EXPRS), "doc": objs, "b": st.booleans()}, 100 if q else 2000, seed_salt=4)
 
